@@ -1233,6 +1233,27 @@ def h_softplus(func, args, kwargs):
     return wrap(rv, ri, 'softplus', any_rg(args))
 
 
+@handler('logsigmoid', 'log_sigmoid')
+def h_logsigmoid(func, args, kwargs):
+    x = args[0]
+    ri = ew(lambda d, a: d.neg(d.log(d.add(1, d.exp(d.neg(a))))), x)
+    rv = torch.nn.functional.logsigmoid(x._v)
+    check_vals(rv, ri, 'logsigmoid')
+    return wrap(rv, ri, 'logsigmoid', x._rg)
+
+
+@handler('pad')
+def h_pad(func, args, kwargs):
+    b = bind(args, kwargs, ['input', 'pad', 'mode', 'value'], {'mode': 'constant', 'value': None})
+    x = b['input']
+    if b['mode'] != 'constant':
+        raise UnsupportedOp('pad mode')
+    val = 0.0 if b['value'] is None else b['value']
+    rv = torch.nn.functional.pad(x._v, b['pad'], value=float(val))
+    ri = torch.nn.functional.pad(x._ids, b['pad'], value=int(const_ids(val)))
+    return wrap(rv, ri, 'pad', x._rg)
+
+
 @handler('xlogy')
 def h_xlogy(func, args, kwargs):
     x, y = args[:2]
@@ -1451,6 +1472,15 @@ def h_clamp(func, args, kwargs):
     d = cur().dag
     cur_t = x
     ri = ids
+    if getattr(cur(), 'ignore_numeric_guards', False):
+        def guard(v, lo):
+            return isinstance(v, (int, float)) and not isinstance(v, SymFloat) and (
+                (lo and 0 <= v < 1e-30) or (not lo and 0 <= 1.0 - v < 1e-6))
+        if (b['min'] is None or guard(b['min'], True)) and (b['max'] is None or guard(b['max'], False)):
+            cur().notes.append('clamp to finfo.tiny / 1-eps treated as identity (numerical guard)')
+            if _fname(func).endswith('_'):
+                return x
+            return wrap(x._v.clone(), x._ids.clone(), 'clamp', x._rg)
     if b['min'] is not None:
         ri = ew(lambda d, a, m: d.ite(d.lt(a, m), m, a), from_ids(ri), b['min'])
     if b['max'] is not None:
